@@ -54,6 +54,20 @@ def run(ctx: Ctx) -> None:
     ok = "partial(self._loop.run_in_executor, None)" in norm(a)
     ctx.check("C17.R2", "asyncio.task_group:TaskGroup.spawn_app", "sync_spawn = loop.run_in_executor(None, ...)", ok, "asyncio sync_spawn changed", a)
 
+    for cls_ in ("AsyncioWSGIMiddleware", "TrioWSGIMiddleware"):
+        mw = repo.func("middleware.wsgi", f"{cls_}.__call__")
+        cw = [c for c in calls(mw) if call_name(c) == "self.wsgi_app"]
+        ok = len(cw) == 1 and len(cw[0].args) == 5 and [norm(a) for a in cw[0].args[:3]] == ["scope", "receive", "send"] and isinstance(getattr(cw[0], "_parent", None), ast.Await)
+        if cls_.startswith("Asyncio"):
+            cs = repo.find("middleware.wsgi", f"{cls_}.__call__._call_soon")
+            ok = ok and cs is not None and "return future.result()" in norm(cs) and norm(cw[0].args[3]) == "partial(loop.run_in_executor, None)" and norm(cw[0].args[4]) == "_call_soon"
+        else:
+            ok = ok and [norm(a) for a in cw[0].args[3:]] == ["trio.to_thread.run_sync", "trio.from_thread.run"]
+        ctx.check("C17.R2", f"middleware.wsgi:{cls_}.__call__", "wsgi_app(scope, receive, send, <thread spawn>, <blocking loop bridge>)", ok, "the WSGI middleware must run the application in a thread and wait for each send", mw)
+    mwi = repo.func("middleware.wsgi", "_WSGIMiddleware.__init__")
+    ok = "self.wsgi_app = WSGIWrapper(wsgi_app, max_body_size)" in norm(mwi)
+    ctx.check("C17.R2", "middleware.wsgi:_WSGIMiddleware.__init__", "WSGIWrapper(wsgi_app, max_body_size)", ok, "the middleware must wrap the application with its body limit", mwi)
+
     # R3
     g = CFG(ra)
     bind = g.where(has_stmt(lambda n: isinstance(n, ast.Call) and call_name(n) == "self.app"))
